@@ -115,6 +115,12 @@ class Gen:
                 base += r.choice('éñ日')
             ext = ''.join(r.choice(pool) for _ in range(r.choice([0, 0, 3, 8])))
         name = base + ('.' + ext if ext or r.random() < 0.5 else '')
+        if level == 4 and r.random() < 0.06:
+            # identifiers so long that hardly anything else fits into the directory record (with
+            # Rock Ridge only the pointer to the continuation area stays in it)
+            total = r.choice([183, 186, 187, 188, 189, 190, 192, 193, 194, 200, 205, 207])
+            name = (name + 'q' * total)[:total - len(u) - 1] + '_' + u
+            return name if r.random() < 0.6 else name[:-2] + ';1'
         if level == 4 and r.random() < 0.3:
             return name
         ver = 1 if r.random() < 0.85 else r.choice([2, 9, 10, 99, 32767])
